@@ -330,6 +330,54 @@ def neval(e: ast.AST, env: Dict[str, object]):
       return {'ceil': _m.ceil, 'floor': _m.floor, 'round': round}[dotted_name(e.func).rsplit('.', 1)[-1]](v_)
     except (TypeError, ValueError):
       raise NoValue(key)
+  if isinstance(e, ast.Call) and not e.keywords and (
+      (isinstance(e.func, ast.Name) and e.func.id in ('enumerate', 'zip')) or dotted_name(e.func).endswith('itertools.compress')):
+    try:
+      args = [list(neval(a, env)) for a in e.args]
+    except TypeError:
+      raise NoValue(key)
+    if isinstance(e.func, ast.Name) and e.func.id == 'enumerate' and len(args) == 1:
+      return [(i, v) for i, v in enumerate(args[0])]
+    if isinstance(e.func, ast.Name) and e.func.id == 'zip':
+      return [tuple(t) for t in zip(*args)]
+    if len(args) == 2:
+      return [v for v, b in zip(args[0], args[1]) if b]
+    raise NoValue(key)
+  if isinstance(e, (ast.ListComp, ast.GeneratorExp)) and all(not g.is_async for g in e.generators) and (
+      len(e.generators) > 1 or not isinstance(e.generators[0].target, ast.Name)):
+    out = []
+
+    def bind(t, v, env2):
+      if isinstance(t, ast.Name):
+        env2[t.id] = v
+      elif isinstance(t, (ast.Tuple, ast.List)):
+        try:
+          vs = list(v)
+        except TypeError:
+          raise NoValue(key)
+        if len(vs) != len(t.elts):
+          raise NoValue(key)
+        for tt, vv in zip(t.elts, vs):
+          bind(tt, vv, env2)
+      else:
+        raise NoValue(key)
+
+    def gen(i, env2):
+      if i == len(e.generators):
+        out.append(neval(e.elt, env2))
+        return
+      g = e.generators[i]
+      try:
+        items = list(neval(g.iter, env2))
+      except TypeError:
+        raise NoValue(key)
+      for v in items:
+        env3 = dict(env2)
+        bind(g.target, v, env3)
+        if all(neval(c, env3) for c in g.ifs):
+          gen(i + 1, env3)
+    gen(0, dict(env))
+    return out
   if isinstance(e, ast.ListComp) and len(e.generators) == 1 and isinstance(e.generators[0].target, ast.Name) and not e.generators[0].is_async:
     gen = e.generators[0]
     out = []
@@ -483,7 +531,8 @@ def run_concrete(fn: ast.AST, env: Dict[str, object], tolerant: bool = False):
           env[t.id] = x
       elif isinstance(st, ast.Raise):
         raise Raised(unparse(st.exc, 60) if st.exc is not None else 'raise')
-      elif isinstance(st, ast.For) and isinstance(st.target, ast.Name) and not st.orelse:
+      elif isinstance(st, ast.For) and not st.orelse and (isinstance(st.target, ast.Name) or (
+          isinstance(st.target, ast.Tuple) and all(isinstance(t, ast.Name) for t in st.target.elts))):
         try:
           items = list(neval(st.iter, env))
         except NoValue:
@@ -495,7 +544,17 @@ def run_concrete(fn: ast.AST, env: Dict[str, object], tolerant: bool = False):
               env.pop(x.id, None)
           continue
         for v in items:
-          env[st.target.id] = v
+          if isinstance(st.target, ast.Name):
+            env[st.target.id] = v
+          else:
+            try:
+              vs_ = list(v)
+            except TypeError:
+              raise NoValue(unparse(st.target, 0))
+            if len(vs_) != len(st.target.elts):
+              raise NoValue(unparse(st.target, 0))
+            for t_, x_ in zip(st.target.elts, vs_):
+              env[t_.id] = x_
           try:
             block(st.body)
           except _Continue:
